@@ -52,6 +52,9 @@
  *   rotate=0|1          ARES_OPT_NOROTATE / ARES_OPT_ROTATE (default 0; one is always passed)
  *   domains=<a.b,c.d>   search domains ("-" or absent: none; ARES_OPT_DOMAINS always passed)
  *   lookups=<bf..>      default "b"
+ *   sysconf=<list>      comma list of lookups,domains: the ARES_OPT_ bit is not passed, the value
+ *                       comes from the resolv.conf named by resolvconf= and is replaced by every
+ *                       ares_reinit (see SIM.md)
  *   failover=<chance>,<delayms>      ARES_OPT_SERVER_FAILOVER
  *   sortlist=<a/m,b/m>  ares_set_sortlist after init (commas become spaces)
  *   hosts=<path>        ARES_OPT_HOSTS_FILE (default /dev/null)
@@ -120,6 +123,7 @@
  *                                afterwards ops that need the channel log IGNORED; network
  *                                and clock ops still work
  *   reinit                       ares_reinit, then waits for the helper thread  (REINIT)
+ *   effcfg                       effective configuration, whatever its source  (EFFCFG lookups= ndots= tries= timeout= nsort= domains=[..])
  *   setservers <csv|->           ares_set_servers_ports_csv  (SETSERVERS rc=)
  *   setsortlist <a/m,b/m>        ares_set_sortlist
  *   setserversl <a,b,..|->       legacy ares_set_servers            (SETSERVERSL rc=)
